@@ -1728,6 +1728,161 @@ theorem run_ttl_started (s : PState) (ops : List Op) (h : s.ttl ≠ .uninit) : (
   | nil => exact h
   | cons op ops ih => unfold run; exact ih _ (step_ttl_started s op h)
 
+/-! ## the store tier holds, key by key, the newest flushed generation -/
+
+structure Inv4 (s : PState) : Prop where
+  head : s.running = true → s.flushing = s.hist.head?.map (·.2)
+  newest : s.failed = false → s.errCh ≠ some .err → ∀ k, s.store.get k = newestFlushed s k
+
+theorem inv4_congr {s s' : PState} (h : Inv4 s) (h1 : s'.running = s.running) (h2 : s'.flushing = s.flushing)
+    (h3 : s'.hist = s.hist) (h4 : s'.failed = s.failed) (h5 : s'.errCh = s.errCh) (h6 : s'.store = s.store) : Inv4 s' :=
+  ⟨by rw [h1, h2, h3]; exact h.head,
+   by unfold newestFlushed; rw [h4, h5, h6, h1, h3]; exact h.newest⟩
+
+theorem inv4_start {s : PState} (h : Inv4 s) (hr : s.running = false) (he : s.errCh ≠ some .err) : Inv4 (start s).1 := by
+  obtain ⟨hf, _, _, hstore, _, hfail, _, _, _, hh, _, _⟩ := start_fields s
+  obtain ⟨_, hc, _⟩ := start_cases s
+  refine ⟨?_, ?_⟩
+  · intro _; rw [hf, hh]; rfl
+  · intro hnf hne k
+    rw [hfail] at hnf
+    have hold := h.newest hnf he k
+    unfold newestFlushed at hold ⊢
+    simp only [hr, Bool.false_eq_true, if_false] at hold
+    rw [hstore, hh]
+    rcases hc with ⟨h1, _, _⟩ | ⟨h1, _, _⟩
+    · simp only [h1, if_true, List.tail_cons]; exact hold
+    · simp only [h1, Bool.false_eq_true, if_false, List.map_cons, List.findSome?_cons]
+      -- the flush function returned at once: either with an error (excluded by `hne`) or because the buffer is empty
+      cases hm : s.mbuf.get k with
+      | none => simp only; exact hold
+      | some v =>
+        exfalso
+        have := (start_fields s).2.2.2.2.2.2.2.1
+        rcases (start_cases s).2.1 with ⟨h1', _, _⟩ | _
+        · rw [h1] at h1'; cases h1'
+        · cases hec : (start s).1.errCh with
+          | none =>
+            have := (start_cases s).2.1
+            rcases this with ⟨h1', _, _⟩ | ⟨_, h2', _⟩
+            · rw [h1] at h1'; cases h1'
+            · rw [hec] at h2'; cases h2'
+          | some r =>
+            cases r with
+            | err => exact hne hec
+            | ok => rw [this hec] at hm; simp at hm
+
+theorem inv4_complete {s : PState} {sp : Spec} (c : Completion) (h : Inv4 s) (h2 : Inv2 s sp) (hr : s.running = true) :
+    Inv4 (complete s c) := by
+  have hfs := h2.runFl hr
+  cases hf : s.flushing with
+  | none => simp [hf] at hfs
+  | some f =>
+    obtain ⟨h1, hech, hst⟩ := complete_of_flushing c hf
+    refine ⟨(by intro hr'; rw [h1] at hr'; cases hr'), ?_⟩
+    intro hnf hne k
+    rw [complete_failed] at hnf
+    have hok : c.res = .ok := by
+      cases hc : c.res with
+      | ok => rfl
+      | err => rw [hech, hc] at hne; exact absurd rfl hne
+    have herr : s.errCh ≠ some .err := by
+      intro he
+      have := (h2.errFl (by rw [he]; rfl)).2
+      rw [hr] at this; cases this
+    have hold := h.newest hnf herr k
+    have hhead := h.head hr
+    rw [hf] at hhead
+    unfold newestFlushed at hold ⊢
+    simp only [hr, if_true] at hold
+    rw [h1, complete_hist, hst hok, Buf.get_apply]
+    simp only [Bool.false_eq_true, if_false]
+    cases hh : s.hist with
+    | nil => rw [hh] at hhead; simp at hhead
+    | cons x tl =>
+      rw [hh] at hhead hold
+      simp only [List.head?_cons, Option.map_some, Option.some.injEq] at hhead
+      simp only [List.tail_cons] at hold
+      simp only [List.map_cons, List.findSome?_cons, ← hhead]
+      cases hfk : f.get k with
+      | some v => simp
+      | none => simp only [orE_none]; exact hold
+
+theorem inv4_await {s : PState} {sp : Spec} (c : Completion) (h : Inv4 s) (h2 : Inv2 s sp) : Inv4 (await s c) := by
+  unfold await
+  by_cases hr : s.running = true
+  · simp only [hr, if_true]; exact inv4_complete c h h2 hr
+  · simp only [hr]; exact h
+
+theorem inv4_clear {s : PState} (h : Inv4 s) (hr : s.running = false) (he : s.errCh ≠ some .err) (le : Option Reported) :
+    Inv4 { s with flushing := none, errCh := none, lastErr := le } := by
+  refine ⟨(by intro hr'; simp only at hr'; rw [hr] at hr'; cases hr'), ?_⟩
+  intro hnf _ k
+  exact h.newest hnf he k
+
+theorem inv4_failWith {s : PState} (hr : s.running = false) : Inv4 (failWith s).1 := by
+  unfold failWith
+  exact ⟨(by intro hr'; simp only at hr'; rw [hr] at hr'; cases hr'), (by intro hnf; cases hnf)⟩
+
+theorem inv4_step {s : PState} {sp : Spec} (op : Op) (h : Inv4 s) (h2 : Inv2 s sp) : Inv4 (step s op).1 := by
+  cases op with
+  | set k v => simp only [step]; split
+               · exact h
+               · exact inv4_congr h rfl rfl rfl rfl rfl rfl
+  | del k => exact inv4_congr h rfl rfl rfl rfl rfl rfl
+  | get k => exact h
+  | batchGet ks => simp only [step]; rw [batchGet_fields]; exact inv4_congr h rfl rfl rfl rfl rfl rfl
+  | flush force mem late =>
+    simp only [step]
+    have h1 : Inv4 { s with cache := none } := inv4_congr h rfl rfl rfl rfl rfl rfl
+    have h21 := inv2_cache h2 none
+    rcases doFlush_cases s force mem late with hd | ⟨_, hd⟩ | ⟨hf, _, hd⟩ | ⟨hf, _, hd⟩
+    · rw [hd]; exact h1
+    · rw [hd]; exact h1
+    · rw [hd]
+      have h3 := inv4_await late h1 h21
+      have hnr : (await { s with cache := none } late).running = false := await_not_running late hf
+      rcases flushAfterWait_cases (await { s with cache := none } late) with ⟨_, he⟩ | ⟨hne, he⟩
+      · rw [he]; exact inv4_failWith hnr
+      · rw [he]; exact inv4_start h3 hnr hne
+    · rw [hd]
+      have hnr : s.running = false := by
+        cases hr : s.running with
+        | false => rfl
+        | true => have := h2.runFl hr; rw [hf] at this; cases this
+      have hne : s.errCh ≠ some .err := by
+        intro he
+        have := (h2.errFl (by rw [he]; rfl)).1
+        rw [hf] at this; cases this
+      exact inv4_start h1 hnr hne
+  | flushDone c =>
+    simp only [step]
+    by_cases hr : s.running = true
+    · simp only [hr, if_true]; exact inv4_complete c h h2 hr
+    · simp only [hr]; exact h
+  | flushWait late =>
+    simp only [step]
+    rcases doFlushWait_cases s late with ⟨hf, hd⟩ | ⟨_, hd⟩
+    · rw [hd]
+      have h3 := inv4_await late h h2
+      have hnr := await_not_running (s := s) late hf
+      rcases waitAfter_cases (await s late) with ⟨_, he⟩ | ⟨hne, he⟩
+      · rw [he]; exact inv4_failWith hnr
+      · rw [he]; exact inv4_clear h3 hnr hne _
+    · rw [hd]; exact h
+  | stage => exact inv4_congr h rfl rfl rfl rfl rfl rfl
+  | release => exact inv4_congr h rfl rfl rfl rfl rfl rfl
+  | cleanup => simp only [step]; split <;> exact inv4_congr h rfl rfl rfl rfl rfl rfl
+
+theorem inv4_init (cfg : Cfg) : Inv4 (init cfg) :=
+  ⟨fun hr => (by cases hr), fun _ _ _ => rfl⟩
+
+theorem inv4_run {s : PState} {sp : Spec} (ops : List Op) (h : Inv4 s) (h2 : Inv2 s sp) :
+    Inv4 (runBoth (s, sp) ops).1 := by
+  induction ops generalizing s sp with
+  | nil => exact h
+  | cons op ops ih => unfold runBoth stepBoth; exact ih (inv4_step op h h2) (inv2_step op h2)
+
 theorem down_pairwise : ∀ n, (down n).Pairwise (· > ·) ∧ ∀ g ∈ down n, 1 ≤ g ∧ g ≤ n
   | 0 => ⟨List.Pairwise.nil, by simp [down]⟩
   | n + 1 => by
